@@ -47,6 +47,13 @@ def make_ids(r, n, style):
     return ids
   if style == 'numstr':
     return [str(i) for i in make_ids(r, n, 'intmix')]
+  if style == 'unicode':
+    # names with accents, some spelled with combining marks (decomposed), some precomposed - also the SAME name in
+    # both spellings, which are two different strings and hence two different geos
+    pool = ['Zu\u0308rich', 'Z\u00fcrich', 'Sa\u0303o Paulo', 'S\u00e3o Paulo', 'Malmo\u0308', 'Me\u0301xico', 'K\u00f8benhavn',
+            'A\u030arhus', '\u00c5rhus', 'Co\u0302te', 'I\u0307zmir', 'Wroc\u0142aw', 'N\u00eemes', 'Nı\u0302mes', 'Du\u0308sseldorf',
+            'D\u00fcsseldorf', 'Go\u0308teborg', 'Bogota\u0301', 'Que\u0301bec', 'Qu\u00e9bec']
+    return r.sample(pool, n) if n <= len(pool) else ['g\u0308%03d' % i for i in range(n)]
   names = ['NYC', 'LAX', 'CHI', 'HOU', 'PHX', 'PHL', 'SAT', 'SDG', 'DAL', 'SJC', 'AUS', 'JAX',
            'SFO', 'CMH', 'CLT', 'IND', 'SEA', 'DEN', 'DCA', 'BOS', 'ELP', 'BNA', 'DTW', 'OKC',
            'PDX', 'LAS', 'MEM', 'SDF', 'BWI', 'MKE', 'ABQ', 'TUS', 'FAT', 'SAC', 'MCI', 'MSY']
